@@ -52,7 +52,7 @@ def generate(ctx):
                # step time reached through the dt setter after construction instead of the constructor
                "built_dt": rng.choice([None, None, None, 2 * dt, 0.5 * dt, dt + 0.25]),
                # clear() in the middle of the run: everything before it equals the resting state from then on
-               "clear_at": rng.choice([None, None, 3, 5, 8])}
+               "clear_at": rng.choice([None, None, 3, 5, 8]), "via_partial": rng.random() < 0.4}
 
 
 def _build(desc, inplace):
@@ -63,7 +63,19 @@ def _build(desc, inplace):
     final_dt = desc["dt"]
     if desc.get("built_dt"):
         desc = {**desc, "dt": desc["built_dt"]}
-    if k == "delta":
+    if desc.get("via_partial"):
+        # the documented common-signature route (what connections use): hyper-parameters bound first, geometry later
+        pk = dict(interp_tol=desc["tol"], current_overbound=desc["cob"], spike_overbound=desc["sob"], inplace=inplace)
+        if k == "delta":
+            ctor = DeltaCurrent.partialconstructor(desc["Q"], desc["interp"], **pk)
+        elif k == "deltaplus":
+            ctor = DeltaPlusCurrent.partialconstructor(desc["Q"], desc["interp"], **pk)
+        elif k == "single":
+            ctor = SingleExponentialCurrent.partialconstructor(desc["Q"], desc["tc"], desc["interp"], **pk)
+        else:
+            ctor = DoubleExponentialCurrent.partialconstructor(desc["Q"], desc["tc"] + desc["tr"], desc["tr"], desc["interp"], **pk)
+        s = ctor(shape, desc["dt"], desc["delay"], desc["B"])
+    elif k == "delta":
         s = DeltaCurrent(shape, desc["dt"], interp_mode=desc["interp"], **common)
     elif k == "deltaplus":
         s = DeltaPlusCurrent(shape, desc["dt"], interp_mode=desc["interp"], **common)
@@ -285,6 +297,18 @@ def run_case(ctx, desc):
                 return ctx.violation(f"{kind}.spike_at.dtype", f"dtype {got.dtype}", rdesc)
             if not torch.equal(got, got2):
                 return ctx.violation(f"{kind}.inplace_vs_outofplace.{what}_at", "twins disagree on a delayed read", rdesc)
+            if kind == "double" and what == "current" and (desc["cob"] in (None, 0.0) or all(c == "in" for c in cls)):
+                # (beyond the range each branch is replaced by the configured out-of-bounds value on its own, so the difference
+                # is only meaningful in range, or when that value is 0 / the value at the limit)
+                # the two branches of the difference of exponentials are readable on their own: rise subtracted from decay
+                try:
+                    parts = syn.pos_current_at(sel.clone()) - syn.neg_current_at(sel.clone())
+                except Exception as e:  # noqa: BLE001
+                    return ctx.violation(ctx.exc_signature(e, "double.component_current_at"), f"{type(e).__name__}: {str(e)[:140]}", rdesc)
+                ctx.count("component_reads_checked")
+                if tuple(parts.shape) != tuple(got.shape) or not torch.allclose(parts, got, rtol=1e-9, atol=1e-10):
+                    return ctx.violation("double.current_at_ne_pos_minus_neg", "current_at differs from pos_current_at - neg_current_at",
+                                         rdesc, {"selector": sel.tolist()})
             gflat = _np(got).reshape(-1)
             D = q["D"]
             per = D if D else 1
